@@ -187,6 +187,16 @@ CHECKS = {
               '<= 5 over the full vocabulary (open sentences, nested quantifiers sharing parameters, self-substitution).'),
         design_ref='DESIGN.md section 5 C15',
         note='Pairs whose old parameter is re-bound inside the sentence are excluded and counted: the property does not fix that edge.'),
+    'C12': dict(
+        category='exploration',
+        technique='Hypothesis sentence generation from the parser grammar; round-trip oracle (write -> parse), independent renderer -> parser, and collision tables for injectivity (plus an exhaustive small universe)',
+        text=('Sentences of the parsers\' language with the full vocabulary are written by the library and parsed back (polish), '
+              'rendered by an independent standard-notation renderer with optional outer parentheses and random whitespace and parsed '
+              'by the standard parser, arguments are rebuilt from their canonical strings, and every (notation, format, dialect) x '
+              'writer option set keeps a rendered -> sentence table over all generated sentences and an exhaustively enumerated small '
+              'universe in which any collision is a violation.'),
+        design_ref='DESIGN.md section 5 C12',
+        note='Trusted: the transcription of the documented alphabets in vf/ast.py. The library\'s own standard-notation output is not required to be parseable (the property does not state it).'),
 }
 
 NOT_YET = 'check not built yet in this session (planned, see DESIGN.md section 5); no claim is made'
